@@ -29,6 +29,7 @@ from typing import Any
 
 from hv.clock import patched_time
 from hv.loop import VClock, run_virtual
+from hv.gen import argnames
 from hv.record import Recorder
 
 ID = "C12"
@@ -361,7 +362,15 @@ def random_case(rng: random.Random) -> dict[str, Any]:
     return {"flavour": flavour, "limit": limit, "exp": exp, "form": "kw" if twin_pool and rng.random() < 0.7 else rng.choice(["pos", "pos", "kw"]), "hist": hist}
 
 
+def argname_wrappers() -> dict[str, tuple[Any, bool, bool]]:
+    from haiway import cache
+
+    return {"cache-sync": (cache, False, True), "cache-async": (cache, True, True), "cache-sync-limit": (cache(limit=2), False, True), "cache-async-expiring": (cache(limit=2, expiration=60.0), True, True)}
+
+
 def run(R: Recorder, tier: str, seed: int, shard: int, nshards: int) -> None:
+    if shard == 0:
+        argnames.check(R, "arguments", argname_wrappers())
     R.flags["exhaustive_core"] = f"all histories up to length {EXH_LEN[tier]} over 3 keys + 2 advances x 4 flavours x limits 1-3 x expirations (none, 1, 2.5)"
     for i, case in enumerate(exhaustive(tier)):
         if i % nshards == shard:
@@ -378,4 +387,7 @@ def run(R: Recorder, tier: str, seed: int, shard: int, nshards: int) -> None:
 
 
 def replay(R: Recorder, case: dict[str, Any]) -> None:
+    if "argnames" in case:
+        argnames.check(R, "arguments", argname_wrappers(), only=case["argnames"])
+        return
     run_history(R, case, verbose=True)
